@@ -100,6 +100,9 @@ class Interp:
             cur = env[s.target.id]
             if isinstance(cur, Cell):
                 pc = CTX.cur()
+                rec = self.env.get("__rec__")
+                if rec is not None:
+                    rec.log("__update__", None, (s.target.id,), {})
                 if isinstance(s.op, ast.Add): cur.value = cur.value + as_poly(val).restrict(pc)
                 elif isinstance(s.op, ast.LShift): cur.value = cur.value.restrict(gnot(pc)) + as_poly(val).restrict(pc)
                 else: raise NotModelled("augop on cell")
